@@ -32,6 +32,11 @@ func judgeLegacyApply(c *core.Ctx, sc *SeqCase, neg bool) {
 		c.Violation("legacy:"+res.Panic.Sig(), d)
 		return
 	}
+	if want.OutOfDom == "test of numerically equal, differently spelled numbers" && res.Panic == nil && res.Err != nil && containsText(res.Err.Error(), "testing value") {
+		// RFC 6902 compares numbers numerically; the package compares their literals: known finding F06 when listed
+		c.Violation("legacy:test-fails-on-numerically-equal-numbers", d, "F06")
+		return
+	}
 	if want.OutOfDom != "" {
 		c.Count("out_of_domain")
 		c.Count("ood:" + want.OutOfDom)
@@ -86,6 +91,12 @@ func judgeLegacyApply(c *core.Ctx, sc *SeqCase, neg bool) {
 		compared = true
 	case ref.AbsentMember, ref.ParentUnreachable:
 		compared = kind == "remove" || kind == "move"
+	}
+	if want.Cause == ref.RootNotContainer && kind == "replace" && res.Err != nil {
+		// RFC 6902 lets replace put any value at the root; both packages refuse a string, number or boolean
+		// there (v5 states it as part of its dialect, C18's text does not): known finding F05 when listed
+		c.Violation("legacy:root-replacement-by-a-scalar-refused", d, "F05")
+		return
 	}
 	if !compared {
 		c.Count("failure-kind-not-compared:" + kind + "/" + want.Cause.String())
